@@ -220,7 +220,7 @@ func (r *Replica) syncOnce(ctx context.Context, maxSyncLTXFiles int) (result rep
 			return result, context.Cause(ctx)
 		}
 		if verifEnabled {
-			verifTrace("replica.pre-upload", uint64(txID))
+			verifTrace("replica.pre-upload", r.db.path, uint64(txID))
 		}
 		if err := r.uploadLTXFile(ctx, 0, txID, txID); err != nil {
 			return result, err
